@@ -54,6 +54,11 @@ def variants(kind, n, seed, diag=True):
     A = A.copy()
     if diag:
         A[np.arange(n), np.arange(n)] = rs.randint(1, 4, size=n) if 'bin' not in kind else 1
+        if 'signed' in kind and seed % 2 == 0:
+            # self-connections that cancel exactly (trace 0 with a nonzero diagonal)
+            d = np.zeros(n)
+            d[:4] = [0.5, -0.5, 0.25, -0.25]
+            A[np.arange(n), np.arange(n)] = d
     else:
         np.fill_diagonal(A, 0)
     out = [('f64_C', A.copy()), ('f64_F', np.asfortranarray(A)), ('f64_view', np.kron(A, np.ones((2, 2)))[::2, ::2]),
@@ -333,7 +338,7 @@ def cases(tier, seed):
     for name in all_public(bct):
         if name in SKIP:
             continue
-        for rep in range(3 if thorough else 1):
+        for rep in range(4 if thorough else 2):
             out.append({'f': name, 'kind': 'driver', 'n': 6 + rep, 'rs': seed * 10 + rep})
     if thorough:
         import glob
